@@ -471,6 +471,70 @@ theorem main_skip (doc : Option (List (Option (Except Err Unit)))) : mainRun tru
 
 example : mainRun true none = (.ok, true) := by decide
 
+/-! ### 6. integers at and beyond Python's int -> str digit limit -/
+
+/-- below the limit nothing changes: the guarded serializer is `ser` -/
+theorem serG_below_limit (v : PVal) (h : refused v = false) : serG v = some (ser v) := by
+  simp [serG, h]
+
+example : refused (.seq [.sc (.int 5), .map [(.int (-7), .sc (.str ['a']))]]) = false := by
+  have := intLimit_gt
+  simp [refused, refusedL, refusedP, scalarRefused]; omega
+
+/-- a refusal yields no text, hence no digest -/
+theorem serG_refusal_no_text (v : PVal) (h : refused v = true) : serG v = none := by
+  simp [serG, h]
+
+example : refused (.map [(.str ['x'], .seq [.sc (.int (-(intLimit : Int)))])]) = true := by
+  simp [refused, refusedL, refusedP, scalarRefused]
+
+/-- whatever gets a text gets its own: the guarded serializer is injective (a refused integer never shares the text of a smaller one) -/
+theorem serG_injective (p q : PVal) (t : Str) (hp : serG p = some t) (hq : serG q = some t) : p = q := by
+  unfold serG at hp hq
+  split at hp
+  · cases hp
+  · split at hq
+    · cases hq
+    · injection hp with hp; injection hq with hq
+      exact ser_injective p q (hp.trans hq.symm)
+
+example : serG (.sc (.int 12)) = some ['1', '2'] := by
+  rw [serG_below_limit _ (by have := intLimit_gt; simp [refused, scalarRefused]; omega)]; decide
+
+/-- a play whose cleaned part holds a refused integer has no digest: `verify_play` never gets to GPG -/
+theorem verifyPlayG_refusal_no_digest (p cleaned : Play) (hc : exclude p = .ok cleaned)
+    (hr : refused (.map cleaned) = true) : ∀ r, verifyPlayG p ≠ .ok r := by
+  intro r h
+  unfold verifyPlayG at h
+  split at h
+  · cases h
+  · simp only [hc, hr, if_true] at h
+    cases h
+
+/-- ... and with every integer of the cleaned play below the limit (integers inside excluded elements do not count)
+the guarded `verify_play` is `verifyPlay` -/
+theorem verifyPlayG_below_limit (p cleaned : Play) (hc : exclude p = .ok cleaned)
+    (hr : refused (.map cleaned) = false) : verifyPlayG p = verifyPlay p := by
+  unfold verifyPlayG
+  split
+  · rename_i e he; rw [he]
+  · rename_i text sig hv
+    simp [hc, hr, hv]
+
+/-- the same for exclusion + serialisation: a text is the model's text of the cleaned play, or there is none -/
+theorem excludeSerG_ok (p : Play) (t : Str) (h : excludeSerG p = .ok t) :
+    ∃ cleaned, exclude p = .ok cleaned ∧ refused (.map cleaned) = false ∧ t = serializePlay cleaned := by
+  unfold excludeSerG at h
+  cases hc : exclude p with
+  | error e => rw [hc] at h; cases h
+  | ok cleaned =>
+    rw [hc] at h
+    simp only at h
+    by_cases hr : refused (.map cleaned) = true
+    · simp [hr] at h
+    · simp [hr] at h
+      exact ⟨cleaned, rfl, by simpa using hr, h.symm⟩
+
 /-! ### non-vacuity: concrete plays go through exclusion and the presence checks -/
 
 def isOk {α : Type} : Except Err α → Bool
@@ -514,5 +578,17 @@ example : ¬ ValidPath (pathOf ['/', 'n', 'a', 'm', 'e']) := by
     rw [e] at h1; injection h1 with h1; subst h1; revert h2; decide
   · have e : pathOf ['/', 'n', 'a', 'm', 'e'] = [['n', 'a', 'm', 'e']] := by decide
     rw [e] at h1; simp at h1
+
+/- `excludeSerG_ok` / `verifyPlayG_below_limit`: `tiny` has a text under the guard -/
+example : isOk (excludeSerG tiny) = true := by
+  have := intLimit_gt
+  have hc : exclude tiny = .ok [(.str sVars, .map [(.str sExclude, .sc (.str ['/', 'h', 'o', 's', 't', 's'])), (.str sSignature, .sc (.str ['U']))]),
+                   (.int 1, .seq [.sc .none])] := by rfl
+  have hr : refused (.map [(.str sVars, .map [(.str sExclude, .sc (.str ['/', 'h', 'o', 's', 't', 's'])), (.str sSignature, .sc (.str ['U']))]),
+                   (.int 1, .seq [.sc .none])]) = false := by
+    simp [refused, refusedL, refusedP, scalarRefused]; omega
+  unfold excludeSerG
+  rw [hc]
+  simp [hr, isOk]
 
 end IV.Playbook.C18
